@@ -870,6 +870,7 @@ func (fr *Frame) exec(st *State, in ssa.Instruction) {
 	case *ssa.Send:
 		u.abstracted = true
 		u.note("channel send in %s abstracted (no effect on modelled state)", fr.fn)
+		fr.afterCall(st, "chan.send", Val{T: "true", S: "Bool"})
 	case *ssa.Select:
 		fr.execSelect(st, i)
 	case *ssa.Return:
@@ -965,6 +966,8 @@ func (fr *Frame) execUnOp(st *State, i *ssa.UnOp) {
 		} else {
 			fr.vals[i] = fr.havocVal(i.Type(), fr.name(i))
 		}
+		// ghost event: visible to contracts as called("chan.recv") / count("chan.recv")
+		fr.afterCall(st, "chan.recv", Val{T: "true", S: "Bool"})
 	default:
 		u.unsup("unop %s", i.Op)
 	}
